@@ -87,7 +87,8 @@ Definition changed (old new : circuit) : list label :=
 Definition replaced_internal (old new : circuit) (outs : list label) : list label :=
   filter (fun l => negb (memb l outs)) (changed old new).
 
-(* everything below the given labels (unverified search; its result is checked by closedb) *)
+(* everything reachable from todo without expanding the labels in seen (unverified search,
+   used only to restrict which gates a step may touch) *)
 Fixpoint closure (fuel : nat) (c : circuit) (todo seen : list label) : list label :=
   match fuel with
   | O => seen
@@ -105,12 +106,6 @@ Fixpoint closure (fuel : nat) (c : circuit) (todo seen : list label) : list labe
 
 Definition closure_fuel (c : circuit) (todo : list label) : nat :=
   S (length todo + size c + sum_arity c).
-
-Definition closedb (c : circuit) (s : list label) : bool :=
-  forallb (fun l => match dget (gates c) l with
-                    | Some g => forallb (fun o => memb o s) (gops g)
-                    | None => false
-                    end) s.
 
 (* order lists gates of c operands-first: every listed label is new, has a gate, and all its
    operands were listed before (an explicit certificate that this part of c is acyclic) *)
